@@ -37,7 +37,12 @@ func (p *peersyncStub) SendCustomMessage(ctx context.Context, to peersync.PeerID
 	if f != nil && f.Kind == "err" {
 		return errors.New("custommsg: peer not reachable")
 	}
-	return n.w.Net.Send(n.ID, to.String(), payload, int(msgType))
+	err := n.w.Net.Send(n.ID, to.String(), payload, int(msgType))
+	if err == nil && f != nil && f.Kind == "errafter" {
+		// lost acknowledgement: the message is on its way, the call still fails
+		return errors.New("custommsg: rpc timed out")
+	}
+	return err
 }
 
 func (p *peersyncStub) SubscribeCustomMessages(ctx context.Context) (<-chan peersync.CustomMessage, error) {
